@@ -275,4 +275,66 @@ theorem sum_preserved (cf : CCfg) (univ : List Addr) (hn : univ.Nodup) (hE : Add
           · simp only [List.mem_cons, List.not_mem_nil, or_false] at hp
             rcases hp with rfl | rfl <;> simp [Prim.addrsIn, E, hu.1, hu.2, hE, hW]
 
+/-! ### I_index (alias part, per operation) -/
+
+theorem lookup_setKV_same {α β : Type} [DecidableEq α] (k : α) (v : β) (l : List (α × β)) :
+    lookup k (setKV k v l) = some v := by
+  induction l with
+  | nil => simp [setKV, lookup]
+  | cons p ps ih =>
+    obtain ⟨k', v'⟩ := p
+    by_cases h : k' = k
+    · simp [setKV, lookup, h]
+    · simp [setKV, lookup, h, ih]
+
+theorem lookup_delKV_same {α β : Type} [DecidableEq α] (k : α) (l : List (α × β)) :
+    lookup k (delKV k l) = none := by
+  induction l with
+  | nil => simp [delKV, lookup]
+  | cons p ps ih =>
+    obtain ⟨k', v'⟩ := p
+    by_cases h : k' = k
+    · simpa [delKV, List.filter, h] using ih
+    · simp only [delKV, List.filter, ne_eq, h, not_false_eq_true, decide_true, lookup, ↓reduceIte]
+      simpa [delKV] using ih
+
+/-- **UpdateDenomAlias keeps the alias index and the bank metadata in step**: after a successful update the alias is
+either in both (added: index entry → the denomination, metadata lists it) or in neither (removed: no index entry,
+metadata no longer lists it) — for every index state, denomination and alias -/
+theorem updateAlias_keeps_alias_index_and_metadata_in_step (i i' : Idx) (d a : Nat)
+    (h : stepIdx i (.updateAlias d a) = .ok i') :
+    (lookup a i'.aliasIdx = some d ∧ ∃ as, lookup d i'.md = some as ∧ a ∈ as) ∨
+    (lookup a i'.aliasIdx = none ∧ ∃ as, lookup d i'.md = some as ∧ a ∉ as) := by
+  simp only [stepIdx] at h
+  split at h
+  · cases h
+  · split at h
+    · cases h
+    · cases hm : lookup d i.md with
+      | none => simp [hm] at h
+      | some old =>
+        simp only [hm] at h
+        cases ha : lookup a i.aliasIdx with
+        | none =>
+          simp only [ha, Except.ok.injEq] at h; subst h
+          left
+          exact ⟨lookup_setKV_same a d _, old ++ [a], lookup_setKV_same d _ _, by simp⟩
+        | some d' =>
+          simp only [ha] at h
+          split at h
+          · simp only [Except.ok.injEq] at h; subst h
+            right
+            exact ⟨lookup_delKV_same a _, old.filter (· ≠ a), lookup_setKV_same d _ _, by simp⟩
+          · cases h
+
+/-- toggling a pair touches nothing but the pair's `Enabled` flag: no index, no alias, no metadata changes -/
+theorem toggle_frame (i i' : Idx) (d : Nat) (h : stepIdx i (.toggle d) = .ok i') :
+    i'.byDenom = i.byDenom ∧ i'.byErc = i.byErc ∧ i'.aliasIdx = i.aliasIdx ∧ i'.md = i.md := by
+  simp only [stepIdx] at h
+  split at h
+  · cases h
+  · split at h
+    · cases h
+    · cases h; exact ⟨rfl, rfl, rfl, rfl⟩
+
 end FxVerif.Props.C08
